@@ -3,6 +3,6 @@ From LV Require Import Lib.Bytes Lib.Prelude Model.C03.
 Extraction Language OCaml.
 Extraction "c03_model.ml"
   prelude_byte_of_N prelude_N_of_byte prelude_Z_of_N prelude_Z_opp prelude_nat_of_N prelude_N_of_nat
-  create spendable select sqlite_select reserve release reserved_ids unreserved
+  create create_signed spendable select sqlite_select reserve release reserved_ids unreserved
   base_size compact_size tx_fee required_fee cost_of_change
   IN_SIZE P2PKH_SIZE CHANGE_EST_SIZE DUST MAXIMUM_TRIES SQLITE_MAX_INTEGER.
